@@ -13,10 +13,10 @@ from . import lib
 
 
 def run(ctx):
+    if ctx.replay:
+        ctx.regenerate()
     q = ctx.quick
     n = lib.NCPU
-    if ctx.replay:
-        raise lib.ToolError("C20 cases are (r, g) slabs regenerated by the drivers; re-run the check")
     jobs = [(["c20-drive", "--mode", "quick" if q else "all", "--shard", i, "--of", n], None, ctx.path("rec", f"rec.{i}.ndjson")) for i in range(n)]
     lib.harness_parallel(jobs, timeout=3400)
     runs = []
